@@ -131,6 +131,33 @@ class Ctx:
                     f"rule {rule} decided {got} instance(s), fewer than the {n} confirmed on the reference tree{extra}",
                     rule=rule,
                 )
+        # an obligation that the reference tree decides may not silently become "undecided": the frozen list names the
+        # (rule, site) pairs that are undecided on the reference tree itself (documented limits); anything else is blindness
+        base = undecided_baseline().get(self.prop)
+        if base is not None:
+            allowed = {tuple(x) for x in base}
+            new = sorted({(f.rule, f.site) for f in self.findings if f.verdict == UNDECIDED} - allowed)
+            if new:
+                first = [f for f in self.findings if f.verdict == UNDECIDED and (f.rule, f.site) == new[0]][0]
+                raise AnalysisError(
+                    f"{len(new)} obligation(s) decided on the reference tree could not be decided, first: {first.rule} @ {first.site}: {first.detail[:160]}",
+                    rule=first.rule,
+                )
+
+
+_UB = None
+
+
+def undecided_baseline() -> dict:
+    global _UB
+    if _UB is None:
+        path = os.path.join(os.path.dirname(os.path.abspath(__file__)), "undecided_baseline.json")
+        try:
+            with open(path, encoding="utf-8") as fh:
+                _UB = json.load(fh)
+        except OSError:
+            _UB = {}
+    return _UB
 
 
 def load_known_findings():
